@@ -215,7 +215,8 @@ LONG_NAMES = ["é" * 100, "日" * 80, "a bcd" * 40, "é" * 100 + ".gmi", "\U0001
               "a" * 254, "a" * 255, "a" * 256, "é" * 127, "é" * 127 + "a", "é" * 128, "日" * 85, "日" * 85 + "a",
               "a" * 249 + "é", "a" * 250 + "é", "a" * 126 + " " + "a" * 126, "a" * 127 + " " + "a" * 126, "é" * 42 + "aaa", "é" * 42 + "aaaa", "é" * 43,
               "日" * 28 + "aaa", "日" * 28 + "aaaa", "日" * 29, "%" * 85, "%" * 86, "e\u0301" * 60]
-NAMES = T.NAMES * 3 + LONG_NAMES          # about one generated name in six is a long one
+OVERLONG = [n for n in LONG_NAMES if len(n.encode("utf-8")) > 255]
+NAMES = T.NAMES * 3 + [n for n in LONG_NAMES if n not in OVERLONG]          # about one generated name in six is a long one
 
 
 def _own_requests(rel_inside: str):
@@ -321,20 +322,24 @@ def _judge(paths, res, ents, outside, mx, when=""):
                 continue
             want = ["20", "file", e[2]]
             if o["r"][1:4] != want:
-                return ("unreachable", f"{when}regular file {_short(e[1])} (inside the root, no symlink on its path, UTF-8, {e[4]} bytes; name of "
-                        f"{len(e[1].rsplit('/', 1)[-1].encode())} bytes) requested by its own {how} path {_short(sp)} -> {o['r'][1:]}")
+                return ("unreachable", f"{when}regular file {_short(e[1])} (inside the root, no symlink on its path, UTF-8, {e[4]} bytes; longest name on "
+                        f"the path {max(len(c.encode()) for c in e[1].split('/'))} bytes) requested by its own {how} path {_short(sp)} -> {o['r'][1:]}")
             if "p" in o and o["p"][:3] != want:
                 return ("unreachable", f"{when}wire: regular file {_short(e[1])} requested by its own {how} path {_short(sp)} -> {o['p']}")
     return None
 
 
+def _fold(s: str) -> str:
+    """long runs of one repeated unit folded so that a message stays readable"""
+    return re.sub(r"(.{1,9}?)\1{5,}", lambda g: "%s{x%d}" % (g.group(1), len(g.group(0)) // len(g.group(1))), s)
+
+
 def _short(s: str) -> str:
-    """repr of a path, long runs of one repeated unit folded so that the message stays readable"""
+    """repr of a path, folded when it is long"""
     r = repr(s)
     if len(r) <= 90:
         return r
-    m = re.sub(r"(.{1,9}?)\1{5,}", lambda g: "%s{x%d}" % (g.group(1), len(g.group(0)) // len(g.group(1))), s)
-    r = repr(m)
+    r = repr(_fold(s))
     return r if len(r) <= 140 else r[:100] + "..." + r[-30:] + f" ({len(s)} chars)"
 
 
@@ -525,7 +530,7 @@ class Sequence(Family):
 
     def oracle(self, case, obs):
         for k, (rd, ob) in enumerate(zip(case["rounds"], obs["rounds"])):
-            when = "" if k == 0 else f"one handler, round {k} after {'; '.join(rd.get('did') or ['an edit of the tree'])[:150]} - "
+            when = "" if k == 0 else f"one handler, round {k} after {_fold('; '.join(rd.get('did') or ['an edit of the tree']))[:170]} - "
             v = _judge(rd["paths"], ob["res"], ob["ents"], ob["outside"], obs["max"], when)
             if v is not None:
                 return v
